@@ -11,6 +11,9 @@ UNITS = {
     'checked_div': {'sources': ('core', 'fpdec'), 'modes': ('F', 'D'), 'module': 'div', 'builder': 'build_checked_div'},
     'mul': {'sources': ('core', 'fpdec'), 'modes': ('F', 'D')},
     'checked_mul': {'sources': ('core', 'fpdec'), 'modes': ('F', 'D'), 'module': 'mul', 'builder': 'build_checked'},
+    'from_float': {'sources': ('core', 'fpdec'), 'modes': ('F', 'D')},
+    'format': {'sources': ('core', 'fpdec'), 'modes': ('F', 'D')},
+    'format_roundtrip': {'sources': ('core', 'fpdec'), 'modes': ('F',), 'module': 'format', 'builder': 'build_roundtrip'},
     'cmp': {'sources': ('core', 'fpdec'), 'modes': ('F', 'D')},
     'checked_add_sub': {'sources': ('core', 'fpdec'), 'modes': ('F', 'D'), 'module': 'add_sub', 'builder': 'build_checked'},
 }
@@ -60,6 +63,28 @@ PROPS = {
             'R5: thread default rounding mode read once per call (uninterpreted function of the thread state)',
             'the 256-bit paths enter with their interface contracts (units/wide_iface.py); their bodies are the subject of C16',
             'quantize (generic blanket impl: div_rounded(q, 0) * q) is NOT under contract yet; its two constituents are',
+        ],
+    },
+    'C11': {
+        'units': ['core_kernel', 'format'],
+        'title': 'Formatting with precision, width, fill, alignment and sign flags is correct',
+        'design_ref': 'DESIGN.md section 7 (C11)',
+        'level': 'proof',
+        'level_text': 'Verus proves for every precision value and rounding mode that Display::fmt hands exactly one pad_integral(sign of d, "", digits) call to the formatter with digits == the canonical text of d rounded once to min(P,18) fractional digits, and writes nothing else; width/fill/alignment/+/0 are then core::fmt::Formatter::pad_integral by construction (trusted, not verified).',
+        'assumptions': [
+            'R7: core::fmt is outside Verus: format!/write!/to_string are stubs whose postcondition is generated from the format-string literal in the source; Formatter is a stand-in with a ghost log',
+            'sentence 2 of C11 (width, fill, alignment, + and 0 flags) is core::fmt::Formatter::pad_integral: trusted std code',
+            'R5: thread default rounding mode read once per call',
+        ],
+    },
+    'C13': {
+        'units': ['core_kernel', 'from_float'],
+        'title': 'f64/f32 to Decimal yields the nearest 18-digit Decimal or a precise error',
+        'design_ref': 'DESIGN.md section 7 (C13)',
+        'assumptions': [
+            'IEEE-754 binary64/binary32 layout of f64::to_bits / f32::to_bits; is_nan / is_infinite specified over the bit pattern (assume_specification)',
+            'i128_magnitude enters with its contract (10^r <= |i| < 10^(r+1)); its body is verified in unit magnitude (C15)',
+            'finite f outside the i128 coefficient range is read literally: -2^127 (coefficient i128::MIN) is converted, see DESIGN.md findings F1',
         ],
     },
     'C05': {
